@@ -139,6 +139,10 @@ def run(ctx):
                           fingerprint={"lang": zoo_lang, "clause": "node-types", "reason": kv.get("reason", ""), "type": kv.get("type", "")})
         else:
             tree_ok += 1
+        if kv.get("kindbad", "0") != "0":
+            judge_bad += 1
+            ctx.violation("judge", "node kind ids do not round-trip on %s nodes of %s (kind_id -> kind -> id, node_kind_is_named(kind_id) vs is_named)" % (kv.get("kindbad"), cid),
+                          {"case": cid, "spec": spec, "result": kv}, fingerprint={"lang": zoo_lang, "clause": "kind-id-roundtrip"})
         if kv.get("acc") != "ok":
             judge_bad += 1
             ctx.violation("judge", "accepted look-ahead not listed by the iterator: %s" % kv.get("acc"),
